@@ -2000,6 +2000,61 @@ pub mod verif {
         }
     }
 
+    /**
+    The production filesystem ([`StdFilesystem`] and [`StdFile`]), reachable through the simulator's seam.
+
+    This lets a simulator run the same history over its model and over the real thing and compare them.
+    */
+    pub struct StdFs;
+
+    impl SimFilesystem for StdFs {
+        fn create_dir_all(&self, path: &Path) -> io::Result<()> {
+            StdFilesystem::new().create_dir_all(path)
+        }
+
+        fn sync_parent(&self, path: &Path) -> io::Result<()> {
+            StdFilesystem::new().sync_parent(path)
+        }
+
+        fn read_dir_files(&self, path: &Path) -> io::Result<Vec<PathBuf>> {
+            Ok(StdFilesystem::new().read_dir_files(path)?.collect())
+        }
+
+        fn remove_file(&self, path: &Path) -> io::Result<()> {
+            StdFilesystem::new().remove_file(path)
+        }
+
+        fn open_new(&self, path: &Path) -> io::Result<Box<dyn SimFile>> {
+            Ok(Box::new(StdFileAdapter(StdFilesystem::new().open_new(path)?)))
+        }
+
+        fn open_existing(&self, path: &Path) -> io::Result<Box<dyn SimFile>> {
+            Ok(Box::new(StdFileAdapter(
+                StdFilesystem::new().open_existing(path)?,
+            )))
+        }
+    }
+
+    struct StdFileAdapter(Box<dyn File + Send + Sync>);
+
+    impl SimFile for StdFileAdapter {
+        fn write(&mut self, buf: &[u8]) -> io::Result<usize> {
+            self.0.write(buf)
+        }
+
+        fn flush(&mut self) -> io::Result<()> {
+            self.0.flush()
+        }
+
+        fn len(&self) -> io::Result<usize> {
+            self.0.len()
+        }
+
+        fn sync_all(&mut self) -> io::Result<()> {
+            self.0.sync_all()
+        }
+    }
+
     #[derive(Debug, Clone, Copy, PartialEq, Eq)]
     pub enum Roll {
         Day,
